@@ -102,6 +102,22 @@ def _z_worker(item):
         exp = [S + k * I / 1000.0 for k in range(nz)]
         if c['route'] == 'numpy':
             writers.numpy_to_sgz(p, inputs.cube((2, 3, nz), ci), 32 if nz <= 64 else 16, (4, 4, -1), samples=samples)
+        elif c['route'] == 'numpy-crop2':
+            # two vertical crops in a row on the z-slice layout (4-sample blocks): the first may start between whole milliseconds
+            # (the float64 sample-axis fields come into use), the second on or off one
+            from seismic_zfp.cropping import SgzCropper
+            nzz = 24
+            samples = S + (I / 1000.0) * np.arange(nzz)
+            writers.numpy_to_sgz(p + '.src', inputs.cube((5, 6, nzz), ci), 32, (16, 16, 4), samples=samples)
+            with env.quiet():
+                with SgzCropper(p + '.src') as cr:
+                    cr.write_cropped_file_by_indexes(p + '.c1', None, None, (4, nzz))
+                with SgzCropper(p + '.c1') as cr:
+                    sec = c.get('second', 4 * (1 + ci % 2))
+                    cr.write_cropped_file_by_indexes(p, None, None, (sec, nzz - 4))
+            exp = [S + k * I / 1000.0 for k in range(4 + sec, nzz)]
+            os.remove(p + '.src')
+            os.remove(p + '.c1')
         elif c['route'] == 'numpy-reblock':
             from seismic_zfp.conversion import SgzConverter
             writers.numpy_to_sgz(p + '.src', inputs.cube((2, 3, nz), ci), 2, (4, 4, -1), samples=samples)
@@ -178,6 +194,13 @@ def plan(run):
             zc.append({'I': I, 'S': starts[j % 5], 'nz': 6, 'route': 'segy2d'})
         if j % 32 == 7:
             zc.append({'I': I, 'S': 0, 'nz': 9, 'route': 'numpy-reblock'})
+        if j % 16 == 3 or I in (125, 250, 500, 1001):
+            zc.append({'I': I, 'S': starts[j % 5], 'nz': 24, 'route': 'numpy-crop2'})
+    # two vertical crops where the first starts between whole milliseconds and the second ends up on / off one
+    for I in (125, 375, 625, 250, 1125, 50):
+        for S in (0, -1, 8):
+            zc.append({'I': I, 'S': S, 'nz': 24, 'route': 'numpy-crop2', 'second': 4})
+            zc.append({'I': I, 'S': S, 'nz': 24, 'route': 'numpy-crop2', 'second': 8})
     return W, K, cases, zc
 
 
@@ -257,7 +280,9 @@ def run(run):
         run.check(close(r['z'], r['exp']), f'C05.sample-axis[{c["route"]}]', case, {'n': len(r['z']), 'z': r['z'][:4]}, {'n': len(r['exp']), 'z': r['exp'][:4]})
         run.check(close(r['emu_z'], r['exp']), f'C05.sample-axis-emulator[{c["route"]}]', case, {'n': len(r['emu_z']), 'z': r['emu_z'][:4]}, None)
         # model: a file newer than 0.1.6 stores the interval in whole microseconds and the start in whole ms
-        if r['dz_word'] != c['I'] or r['z0_word'] != c['S'] % 2**32:
+        if c['route'] == 'numpy-crop2':
+            run.traces_validated += 0
+        elif r['dz_word'] != c['I'] or r['z0_word'] != c['S'] % 2**32:
             run.drift(f'{case}: interval/start words {r["dz_word"]}/{r["z0_word"]} differ from SgzGeometry!EncGeom {c["I"]}/{c["S"] % 2**32}')
         else:
             run.traces_validated += 1
